@@ -47,6 +47,13 @@ def main():
     exe = build()
     p = subprocess.run([exe, 'search'] + fams, capture_output=True, text=True, timeout=240)
     line = p.stdout.strip().split('\n')[-1] if p.stdout.strip() else '{}'
+    if p.returncode < 0 or (p.returncode != 0 and not p.stdout.strip()):
+        # the search process itself died (stack overflow, abort): the input it was compiling is the witness
+        tries = [l for l in p.stderr.split('\n') if l.startswith('TRY ')]
+        if tries:
+            fam, esc = tries[-1][4:].split(' ', 1)
+            src = esc.encode().decode('unicode_escape')
+            line = json.dumps({'family': fam, 'input': src, 'observed': 'the compiler process died (return code %d: stack overflow or abort) while compiling this input' % p.returncode, 'inputs_tried': len(tries)})
     d = json.loads(line)
     d['families'] = fams
     d['how'] = 'inputs from the contract\'s finite domain were compiled with the real crates of the working tree (replay/src/main.rs)'
